@@ -211,6 +211,9 @@ Fixpoint replay (limit fuel : nat) (s : st) (seen : nat) (evs : list ev) : bool 
     end
   end.
 
+(* NewClient: PipelineLimit 0 is replaced by DefaultPipelineLimit = 75 *)
+Definition effective (limit : nat) : nat := match limit with O => 75 | _ => limit end.
+
 Definition check_case (c : case) : bool :=
-  replay (c_limit c) (40 * length (c_evs c) + 100) init 0 (c_evs c).
+  replay (effective (c_limit c)) (40 * length (c_evs c) + 100) init 0 (c_evs c).
 Definition mismatches := failing check_case.
